@@ -161,8 +161,12 @@ def check_results(ctx, num=3):
     rets = [r for r in own_nodes(f.node) if isinstance(r, ast.Return)]
     ret_names = {norm.U(r.value) if r.value is not None else None for r in rets}
     res_list = None
-    if len(ret_names) == 1 and all(r.value is not None and isinstance(r.value, ast.Name) for r in rets):
-        res_list = rets[0].value.id
+    named = [r for r in rets if r.value is not None and isinstance(r.value, ast.Name)]
+    empties = [r for r in rets if r.value is not None and isinstance(r.value, ast.List) and not r.value.elts]
+    if named and len({r.value.id for r in named}) == 1 and len(named) + len(empties) == len(rets):
+        # an early `return []` is acceptable only where no container can end: nothing was active
+        if all(norm.entails(g.facts_at(r), ("truth", "self.active_containers", False)) for r in empties):
+            res_list = named[0].value.id
     ctx.ob(num, "K6", "run_one_tick returns its result list itself (unfiltered)", res_list is not None, f, rets[0] if rets else f.node,
            construct="return results", detail=f"returned: {sorted(map(str, ret_names))}")
     for er in ers:
@@ -344,6 +348,8 @@ def run(ctx):
     check_routing(ctx, 1)
     c02.check_container_factory(ctx, 2)
     pool.ob_moves_classified(ctx, 2)
+    pool.ob_deltas(ctx, 3, amounts=False, conditions=True)
+    pool.ob_phases(ctx, 3)
     check_results(ctx, 3)
     check_success_iff_no_error(ctx, 5)
     check_validation_order(ctx, 6)
